@@ -20,7 +20,9 @@ RULE = ("cases = (writer schema, reader schema, datum): writer schemas random ov
         "corr:resolve-layouts = the same on FOREIGN bytes: writer records containing arrays/maps, a random valid layout of a random value "
         "(multi-block arrays/maps, negative counts + arbitrary byte sizes, sized and unsized blocks mixed) produced by the model's wire_l, "
         "reader schemas that drop (75 %: a container-typed field first, at any depth) or keep those fields; schemaless_reader on the bytes and "
-        "reader(reader_schema=) on a container file whose block holds them")
+        "reader(reader_schema=) on a container file whose block holds them. corr:resolve-stream = every case whose reader schema has a list/dict "
+        "field default: the datum three times in one file / three schemaless reads with one parsed reader schema, every value read is grown in "
+        "place (append / set key) before the next read; each must be the specification's value and the reader schema must be left unchanged")
 TRUSTED = ["the writer/reader schemas reach the model as the parsed dicts and the two named_schemas tables the implementation itself built "
            "(schemaless: parse_schema into separate dicts; container: file_reader's own _named_schemas)",
            "the `writer_schema == reader_schema` shortcut of schemaless_reader is evaluated by the harness (Python ==) and passed to the model as 'no reader schema'",
@@ -30,10 +32,12 @@ ASSUMPTIONS = ["named types are not called like a built-in type name", "logical 
                "dict insertion order of the result is not compared (DESIGN 1.3)",
                "str defaults that float() would accept ('1.5', 'nan') are not generated for unions containing float/double"]
 PARTIAL = ["C08_factor is proved as C08_factor_code (rdec = decode ; rval: all schema pairs, options, layouts) + C08_factor_zone_partial (rval = resolve for "
-           "schemas without by-name references under the computable condition `agree`, C08_factor_zone_refs_partial for schemas with by-name references / "
-           "recursive types under `agreen k` (k >= height of the value): no empty reader union, no empty-string enum default, well-formed JSON defaults); that "
-           "the code's match verdicts / reader-union branch choice / record guard coincide with the specification's is proved; all for ANY reader options; missing: logicalType annotations "
-           "on non-primitive types, nested unions. The full statement was false of the "
+           "schemas without by-name references under the computable condition `agree`) + C08_factor_zone_refs_any_height_partial (schemas with by-name references / "
+           "recursive types, values of ANY height, under the computable condition `agree_all`: a finite set of (writer, reader) schema pairs closed under the pairs visited "
+           "next, each pair with no empty reader union, no empty-string enum default, well-formed JSON defaults; C08_factor_zone_refs_partial is the depth-indexed form "
+           "`agreen k`, monotone in k); that the code's match verdicts / reader-union branch choice / record guard coincide with the specification's is proved; "
+           "reader == writer through the code is proved with references too (C08_identity_code_refs_any_height_partial); all for ANY reader options; "
+           "missing: logicalType annotations on non-primitive types, nested unions. The full statement was false of the "
            "code before the repairs (C08_old_code_refuted_*, about model/ResolveOld.v)"]
 
 SRE = "SchemaResolutionError"
@@ -255,6 +259,18 @@ WITNESSES = [
      rec("R", [fld("b", "long", default=5), fld("c2", "int", aliases=["c"])]), {"a": 42, "c": 3}),
     ("writer-type-alias-ignored", {"type": "fixed", "name": "F", "size": 4, "aliases": ["G"]}, {"type": "fixed", "name": "G", "size": 4}, b"abcd"),
     ("writer-type-alias-ignored-record", rec("R", [fld("x", "int")], aliases=["S"]), rec("S", [fld("x", "int")]), {"x": 1}),
+    ("writer-enum-default-reader-none", {"type": "enum", "name": "E", "symbols": ["A", "B"], "default": "A"},
+     {"type": "enum", "name": "E", "symbols": ["A"]}, "B"),
+    ("writer-enum-default-unknown-to-reader", {"type": "enum", "name": "E", "symbols": ["A", "B", "C"], "default": "C"},
+     {"type": "enum", "name": "E", "symbols": ["A"]}, "B"),
+    ("writer-enum-default-in-record", rec("R", [fld("e", {"type": "enum", "name": "E", "symbols": ["A", "B"], "default": "B"}), fld("x", "int")]),
+     rec("R", [fld("x", "int"), fld("e", {"type": "enum", "name": "E", "symbols": ["B"]})]), {"e": "A", "x": 1}),
+    ("default-container-array", rec("R", [fld("x", "int")]), rec("R", [fld("x", "int"), fld("xs", {"type": "array", "items": "int"}, default=[1, 2])]), {"x": 1}),
+    ("default-container-map", rec("R", [fld("x", "int")]), rec("R", [fld("x", "int"), fld("m", {"type": "map", "values": "string"}, default={})]), {"x": 1}),
+    ("default-container-nested", rec("R", [fld("x", "int")]),
+     rec("R", [fld("x", "int"), fld("r", rec("D", [fld("l", {"type": "array", "items": "string"}), fld("m", {"type": "map", "values": "long"}, default={"a": 1})]),
+                                   default={"l": []})]), {"x": 1}),
+    ("default-container-union", rec("R", [fld("x", "int")]), rec("R", [fld("x", "int"), fld("u", ["null", {"type": "array", "items": "boolean"}], default=[True])]), {"x": 1}),
     ("default-missing", rec("R", [fld("x", "int")]), rec("R", [fld("x", "int"), fld("n", "int")]), {"x": 1}),
     ("same-unqualified-in-union", [rec("a.R", [fld("x", "int")]), rec("b.R", [fld("y", "string")])],
      [rec("a.R", [fld("x", "int")]), rec("b.R", [fld("y", "string")])], {"y": "hello"}),
@@ -302,6 +318,8 @@ def gen_writer(rng):
         raw = json.loads(json.dumps(raw))
         if rng.random() < 0.3:
             evolve.add_writer_aliases(raw, rng)
+        if rng.random() < 0.3:
+            evolve.add_writer_enum_defaults(raw, rng)
         named = {}
         try:
             parsed = fastavro.parse_schema(copy.deepcopy(raw), named)
@@ -535,6 +553,97 @@ def run_layouts(ctx, n):
     ctx.notes["layout_family_removed_fields"] = skipped_fields
 
 
+# ---------------------------------------------------------------- several records, the consumer mutates what it got
+def has_container_default(s):
+    """some field default of the schema is (or contains) a list / dict"""
+    def cont(d):
+        return isinstance(d, (list, dict))
+    if isinstance(s, list):
+        return any(has_container_default(b) for b in s)
+    if isinstance(s, dict):
+        t = s.get("type")
+        if t in ("record", "error"):
+            return any(("default" in f and cont(f["default"])) or has_container_default(f["type"]) for f in s.get("fields", []))
+        if t == "array":
+            return has_container_default(s["items"])
+        if t == "map":
+            return has_container_default(s["values"])
+    return False
+
+
+def mutate_in_place(v):
+    """what a consumer may do with the value it was handed: grow every container"""
+    if isinstance(v, list):
+        for x in v:
+            mutate_in_place(x)
+        v.append("__mutated__")
+    elif isinstance(v, dict):
+        for x in list(v.values()):
+            mutate_in_place(x)
+        v["__mutated__"] = 1
+    elif isinstance(v, tuple):
+        for x in v:
+            mutate_in_place(x)
+
+
+def check_stream(ctx, c, spec):
+    """the same datum three times in one file / three schemaless reads with ONE parsed reader schema; every value read is
+    mutated in place before the next one is read: each must still be what the rules prescribe, and the reader schema the
+    caller passed must be left as it was"""
+    import fastavro
+    expected = parse_show(spec[2:])
+    wnamed = {}
+    wparsed = fastavro.parse_schema(copy.deepcopy(c.w_raw), wnamed)
+    w = CC.impl_write(wparsed, c.datum)
+    if w[0] != "ok":
+        return
+    for route in ("container", "schemaless"):
+        r_obj = copy.deepcopy(c.r_raw)
+        pristine = copy.deepcopy(r_obj)
+        got, err = [], None
+        try:
+            def go():
+                if route == "container":
+                    fo = io.BytesIO()
+                    fastavro.writer(fo, wparsed, [c.datum] * 3)
+                    fo.seek(0)
+                    for recd in fastavro.reader(fo, reader_schema=r_obj):
+                        got.append(canon_py(recd))
+                        mutate_in_place(recd)
+                else:
+                    nonlocal pristine
+                    rp = fastavro.parse_schema(r_obj)
+                    pristine = copy.deepcopy(rp)
+                    r_obj2 = rp
+                    for _ in range(3):
+                        recd = fastavro.schemaless_reader(io.BytesIO(w[1]), wparsed, r_obj2)
+                        got.append(canon_py(recd))
+                        mutate_in_place(recd)
+                    return r_obj2
+                return r_obj
+            after = core.with_timeout(go, 20)
+        except Exception as e:
+            err = "%s: %s" % (type(e).__name__, str(e)[:150])
+            after = None
+        ctx.count("corr:resolve-stream", (json.dumps(c.w_raw, sort_keys=True), json.dumps(c.r_raw, sort_keys=True), repr(c.datum), route),
+                  nontrivial=True)
+        case = c.to_json(route + "/stream")
+        if err is not None or len(got) != 3:
+            ctx.violation("corr:resolve-stream", case, impl=err or ("%d records" % len(got)), model="three records: " + spec[:400],
+                          signature="C08:read_record:stream:raises-on-repeated-read", found_input=True)
+            continue
+        bad = [i for i, g in enumerate(got) if g != expected]
+        if bad:
+            ctx.violation("corr:resolve-stream", case, impl="record %d differs after the consumer mutated record %d in place" % (bad[0], bad[0] - 1),
+                          model="every record: " + spec[:400],
+                          signature="C08:read_record:default-container-shared-between-records" if bad[0] > 0 else "C08:read_record:stream:first-record-differs",
+                          found_input=True)
+        elif after != pristine:
+            ctx.violation("corr:resolve-stream", case, impl="the reader schema object was modified by mutating the values read",
+                          model="the reader schema is left as it was", signature="C08:read_record:default-container-shared-with-reader-schema",
+                          found_input=True)
+
+
 # ---------------------------------------------------------------- labels for violations
 def first_diff(a, b, path=""):
     """first differing position of two canonical values: (path, a-leaf, b-leaf)"""
@@ -764,8 +873,9 @@ def compare(ctx, c, route, res, mtext, with_rest, corr="corr:resolve"):
         ctx.notes["outside_zone_reasons"][zone] = ctx.notes["outside_zone_reasons"].get(zone, 0) + 1
     if has_opts:
         ctx.notes["cases_with_reader_options"] = ctx.notes.get("cases_with_reader_options", 0) + 1
-    if zone in ("Z1", "Z2") and default_opts:
-        key = "cases_inside_agreement_zone" if zone == "Z1" else "cases_inside_agreement_zone_with_references(depth<=16)"
+    if zone in ("Z1", "Z2", "Z2D") and default_opts:
+        key = {"Z1": "cases_inside_agreement_zone", "Z2": "cases_inside_agreement_zone_with_references(every depth)",
+               "Z2D": "cases_inside_agreement_zone_with_references(depth<=16 only)"}[zone]
         ctx.notes[key] = ctx.notes.get(key, 0) + 1
         if rd.split("|")[0].replace("R:", "V:", 1) != spec:
             ctx.violation(corr, c.to_json(route), impl=None, model=mtext[:600], signature="C08:model:theorem-C08_factor_zone-contradicted",
@@ -843,6 +953,10 @@ def run(ctx):
             compare(ctx, c, "container", p["B"], out[index[p["exprB"]]], False)
         else:
             ctx.notes["container_reader_not_constructed"] = ctx.notes.get("container_reader_not_constructed", 0) + 1
+        if mA and not c.ropts and has_container_default(c.r_raw):
+            sp = mA.split(";")[1]
+            if sp.startswith("V:"):
+                check_stream(ctx, c, sp)
     run_layouts(ctx, 400 if ctx.quick() else 4000)
     ctx.notes["specification_outcomes(schemaless route)"] = hist
     ctx.notes["schemaless_equal_schema_shortcut"] = shortcuts
@@ -892,7 +1006,7 @@ def replay(ctx, rep):
         ic = impl_class(res)
         print("[%s] implementation: %s" % (route, G.show_py(res[1]) if ic == "V" else "%s %s %s" % (ic, res[1], res[2])))
         print("[%s] model rdec     : %s" % (route, rd[:600]))
-        print("[%s] specification  : %s   (%s the agreement zone)" % (route, spec[:600], "inside" if zone in ("Z1", "Z2") else "outside"))
+        print("[%s] specification  : %s   (%s the agreement zone)" % (route, spec[:600], "inside" if zone in ("Z1", "Z2", "Z2D") else "outside"))
         if spec.startswith("V:"):
             good = ic == "V" and canon_py(res[1]) == parse_show(spec[2:])
         elif spec == "ER":
